@@ -380,7 +380,10 @@ func genParams(r rng, sc *Scenario, op *Op) {
 		op.U = []uint64{0, 1, 10, 1e19 - 1, 1e19, 1e19 + 1, math.MaxUint64, 1 << 63, r.Uint64()}[r.intn(9)]
 	case "SetFloat64":
 		if r.chance(0.06) {
-			op.FB = math.Float64bits(math.NaN())
+			// NaNs of every kind: the canonical quiet one, negative, signalling
+			// (quiet bit clear), arbitrary payloads
+			op.FB = []uint64{math.Float64bits(math.NaN()), 0x7ff0000000000001, 0xfff0000000000001, 0x7ff4000000000000, 0xfff8000000000000,
+				0x7ff0000000000000 | (r.Uint64()&0x000fffffffffffff | 1), 0xfff0000000000000 | (r.Uint64()&0x0007ffffffffffff | 2)}[r.intn(7)]
 		} else if r.chance(0.12) {
 			// integers in [2^52, 2^53): the one range that needs no power-of-two scaling
 			op.FB = math.Float64bits(float64(uint64(1)<<52 + r.Uint64()%(uint64(1)<<52)))
